@@ -358,6 +358,7 @@ fn run_inner(ctx: &Ctx, dump_dir: &Path, torn_dir: &Path) -> i32 {
             );
         }
     }
+    ctx.sample(json!({"crash_point_case": {"params": p_json(&cp_tuples[1]), "file_bytes": file_lens.get(1), "every_prefix_length_0_to_len_minus_1_reloaded": true, "outcome_counts": {"err": st.err, "panic": st.panics, "ok": st.ok_same + st.ok_other}}}));
     // ---- missing file / directory in place of the file
     let mut env_cases = 0u64;
     {
